@@ -8,6 +8,7 @@ package gosym
 
 import (
 	"fmt"
+	"os"
 	"go/types"
 
 	"golang.org/x/tools/go/ssa"
@@ -192,6 +193,8 @@ func (m *machine) deadlock(what string) {
 			if t.onTicker {
 				ticker = true
 			}
+		} else {
+			desc += fmt.Sprintf(" [%s done=%v exited=%v started=%v]", t.name, t.done, t.exited, t.started)
 		}
 	}
 	if ticker {
@@ -202,6 +205,16 @@ func (m *machine) deadlock(what string) {
 		m.res.mu.Lock()
 		m.res.Obligations++
 		m.res.mu.Unlock()
+		if os.Getenv("VERIF_DUMP_PATH") != "" {
+			for i, d := range m.trace {
+				w := ""
+				if i < len(m.traceWhere) {
+					w = m.traceWhere[i]
+				}
+				fmt.Fprintf(os.Stderr, "  DL decision %d: %s choice=%d n=%d %s\n", i, d.Kind, d.Choice, d.N, w)
+			}
+			fmt.Fprintf(os.Stderr, "  DL end %s\n", desc)
+		}
 		m.violated("deadlock", "true", "all threads blocked ("+what+")"+desc)
 	}
 	if m.cur.id == 0 {
